@@ -38,8 +38,9 @@ func (e *CachedPointDataExtractor) Extract(point string) (*PointData, error) {
 	// example
 	// getUsers:7#User_8
 
+	// the id is everything after the first #: an id may itself contain # or :
 	if strings.Contains(point, "#") {
-		idData := strings.Split(point, "#")
+		idData := strings.SplitN(point, "#", 2)
 		if len(idData) == 2 {
 			id = idData[1]
 		}
